@@ -4,6 +4,138 @@ import os
 import kit
 
 
+def split_commands(ctx):
+    """C03: MGET / MSET / DEL / UNLINK / EXISTS / TOUCH = per-key commands combined in argument order (ClusterSplit.tla)."""
+    ctx.mc("redis", "ClusterSplit", "MC_ClusterSplit_thorough.cfg" if ctx.thorough else "MC_ClusterSplit.cfg", workers=8, timeout=1500)
+    # anti-vacuity: the two ways to get the combination wrong must be caught by the module's invariants
+    ctx.mc("redis", "ClusterSplit", "MC_ClusterSplit_dedup.cfg", workers=4, timeout=600,
+           expect_violated=["EqualsReference", "StoreIsReference"], count=False)
+    if ctx.thorough:
+        ctx.mc("redis", "ClusterSplit", "MC_ClusterSplit_arrival.cfg", workers=4, timeout=600,
+               expect_violated=["EqualsReference"], count=False)
+        # ... and de-duplication is harmless for DEL / UNLINK alone (the second occurrence counts 0 anyway)
+        ctx.mc("redis", "ClusterSplit", "MC_ClusterSplit_dedup_delonly.cfg", workers=4, timeout=600, count=False)
+    g = ctx.tlc("redis", "ClusterSplitGen", "Gen_ClusterSplit.cfg", mode="sim", workers=1, sim_num=120 if ctx.thorough else 20,
+                sim_depth=400, seed=ctx.seed, deadlock=False, timeout=600)
+    vecs = [p for (tag, p) in g.prints if tag == "VEC"]
+    behs = [p for (tag, p) in g.prints if tag == "BEH"]
+    if len(vecs) < 1000 or len(behs) < 5:
+        raise kit.Inconclusive("ClusterSplitGen emitted %d vectors, %d programs: %s" % (len(vecs), len(behs), g.error[:300]))
+    vfile = os.path.join(ctx.work, "split-vectors.ndjson")
+    bfile = os.path.join(ctx.work, "split-programs.ndjson")
+    rfile = os.path.join(ctx.work, "split-results.ndjson")
+    kit.write_ndjson(vfile, vecs)
+    kit.write_ndjson(bfile, behs)
+    ctx.harness(["cluster-split", "-vec", vfile, "-in", bfile, "-out", rfile], timeout=1500, name="cluster")
+    results = kit.read_ndjson(rfile)
+    strata = set()
+    good = 0
+    for res in results:
+        if res.get("err"):
+            ctx.notes.append("split %s %s: %s" % (res.get("kind"), res.get("id"), res["err"]))
+            continue
+        good += 1
+        strata.update(res.get("strata") or [])
+        src = vecs[res["id"] - 1] if res["kind"] == "vector" else behs[res["id"] - 1]
+        ctx.case(key=["split", res["kind"], src], nontrivial=True, n=res["cmds"])
+        for b in res.get("bad") or []:
+            if b["why"].startswith("child delivered"):
+                sig = "first-hop-not-owner/multi-key/%s" % b["class"]
+            elif b["class"] == "state":
+                sig = "data-differs/multi-key/%s" % b["shape"]
+            else:
+                sig = "reply-differs/multi-key/%s/%s" % (b["class"], b["shape"])
+            ctx.violation(sig, "%s %s (%s): got %s want %s - %s" % (b["cmd"], b["args"], b["shape"], b["got"], b["want"], b["why"]),
+                          {"source": src, "result": res})
+        if res["redirects"]:
+            ctx.violation("redirection-on-stable-cluster", "%d redirections while a multi-key command ran on a stable cluster" % res["redirects"],
+                          {"source": src, "result": res})
+        if not res.get("bad") and not res["redirects"]:
+            ctx.cov["traces_validated_against_impl"] += 1
+    if good < len(results) * 0.9 or not results:
+        raise kit.Inconclusive("split driver unhealthy: %d of %d" % (good, len(results)))
+    # mandatory strata: every class, with and without a repeated key, under every concrete command name
+    need = {"%s/%s/%s" % (c, sh, n) for c, names in (("mcount", ("exists", "touch")), ("mdel", ("del", "unlink")),
+                                                       ("mread", ("mget",)), ("mwrite", ("mset",)))
+            for sh in ("repeated-key", "distinct-keys") for n in names}
+    missing = sorted(need - strata)
+    if missing and not ctx.violations:
+        raise kit.Inconclusive("multi-key strata not exercised: %s" % missing)
+    ctx.cov["multi_key"] = {"vectors": len(vecs), "programs": len(behs), "commands": sum(r.get("cmds", 0) for r in results),
+                            "strata": sorted(strata)}
+    ctx.cov["exhaustive_multi_key_vectors"] = True
+    ctx.sample({"vector": vecs[len(vecs) // 2]})
+
+
+def refresh_race(ctx):
+    """C03: window W_RouteDuringRefresh on the real code (the refresher runs back to back under keyed traffic)."""
+    rfile = os.path.join(ctx.work, "refreshrace.ndjson")
+    ctx.harness(["cluster-refreshrace", "-out", rfile, "-runs", "8" if ctx.thorough else "2", "-ms", "1000" if ctx.thorough else "400"],
+                timeout=900, name="cluster")
+    exercised = 0
+    for r in kit.read_ndjson(rfile):
+        if r.get("err"):
+            ctx.notes.append("refreshrace: " + r["err"])   # driver trouble; whatever was observed is still judged
+        if not r.get("requests"):
+            continue
+        ctx.case(key=["refreshrace", r["run"], r["requests"], r["refreshes"]], nontrivial=True, n=r["requests"])
+        if r["misrouted"] or r["redirects"]:
+            ctx.violation("first-hop-not-owner/refresh-in-progress",
+                          "%d of %d commands were delivered to a node that does not own their key (%d redirections) while the routing table "
+                          "of an unchanged cluster was being refreshed (%d refreshes): %s"
+                          % (r["misrouted"], r["requests"], r["redirects"], r["refreshes"], r["firstWrong"]), r)
+        for b in (r.get("bad") or [])[:3]:
+            ctx.violation("reply-differs/refresh-in-progress", b, r)
+        if r["refreshes"] >= 10 and r["requests"] >= 300 and not r.get("err"):
+            exercised += 1
+            if not (r["misrouted"] or r["redirects"] or r.get("bad")):
+                ctx.cov["traces_validated_against_impl"] += 1
+    if not exercised and not ctx.violations:
+        raise kit.Inconclusive("refresh window not exercised (no run with >= 10 refreshes under >= 300 requests)")
+
+
+def redirect_order(ctx):
+    """C04: window W_RedirectToFreshNode on the real code (pipelines redirected to a node the proxy has no connection to)."""
+    rfile = os.path.join(ctx.work, "redirorder.ndjson")
+    ctx.harness(["cluster-redirorder", "-out", rfile, "-runs", "6" if ctx.thorough else "2", "-cmds", "48" if ctx.thorough else "40"],
+                timeout=900, name="cluster")
+    reached = {}
+    for r in kit.read_ndjson(rfile):
+        kind = r.get("kind", "?")
+        if r.get("err"):
+            ctx.notes.append("redirorder %s: %s" % (kind, r["err"]))
+            continue
+        ctx.case(key=["redirorder", kind, r["run"]], nontrivial=True, n=r["conns"] * r["cmds"])
+        # the window: the target had never been connected and the pipelines went over the old owner
+        window = r["freshBefore"] and r["redirected"] >= r["conns"] and r["targetServed"] >= r["conns"]
+        reached[kind] = reached.get(kind, 0) + (1 if window else 0)
+        if kind == "demoted-read":
+            # SET k v; GET k in one pipeline after the master has been demoted: the read must see the write
+            if r.get("bad"):
+                ctx.violation("stale-read/pipelined-read-served-by-demoted-master",
+                              "after a failover in which the old master stays alive as a replica, a client pipeline SET k v; GET k gets the old "
+                              "value: the write is redirected (MOVED) to the new master, the read is answered by the demoted node itself "
+                              "(every backend connection is READONLY) before the write has been executed: %s" % r["bad"][0], r)
+            elif window:
+                ctx.cov["traces_validated_against_impl"] += 1
+            continue
+        where = "redirect-to-fresh-node/" + kind
+        for b in (r.get("bad") or [])[:2]:
+            ctx.violation("reply-differs/" + where, "%s; the target executed %s" % (b, r.get("arrival") or "?"), r)
+        for b in (r.get("final") or [])[:2]:
+            ctx.violation("data-differs/" + where, b, r)
+        for b in (r.get("leaked") or [])[:2]:
+            ctx.violation("redirect-leak/" + where, b, r)
+        for b in (r.get("twice") or [])[:2]:
+            ctx.violation("effect-not-once/" + where, b, r)
+        if window and not (r.get("bad") or r.get("final") or r.get("leaked") or r.get("twice")):
+            ctx.cov["traces_validated_against_impl"] += 1
+    missing = [k for k in ("ask", "moved", "failover-moved", "demoted-read") if not reached.get(k)]
+    if missing and not ctx.violations:
+        raise kit.Inconclusive("redirect-to-fresh-node window not reached for: %s" % missing)
+    ctx.cov["redirect_to_fresh_node"] = reached
+
+
 def gen_and_replay(ctx, gencfg, num, stable, label, extra=()):
     g = ctx.tlc("redis", "ClusterGen", gencfg, mode="sim", workers=1, sim_num=num, sim_depth=600,
                 seed=ctx.seed, deadlock=False, timeout=600)
@@ -25,9 +157,12 @@ def gen_and_replay(ctx, gencfg, num, stable, label, extra=()):
             continue
         good += 1
         mig = [s["a"] for s in beh if s["a"] in ("setmigrating", "migratekey", "finalise")]
-        ctx.case(key=[(s["a"], s["op"], s["k"], s["exp"]) for s in beh], nontrivial=(len(mig) > 0) or stable, n=res["cmds"])
+        pipelined = label == "pipeline"
+        ctx.case(key=[label] + [(s["a"], s["op"], s["k"], s["exp"], s.get("p", 0)) for s in beh], nontrivial=(len(mig) > 0) or stable, n=res["cmds"])
         art = {"behaviour": beh, "result": res}
         phase = "stable" if stable else ("+".join(sorted(set(mig))) or "no-migration")
+        if pipelined:
+            phase = "pipelined/" + phase
         for b in res.get("bad") or []:
             if "leaked" in b["why"]:
                 sig = "redirect-leak/" + phase
@@ -42,7 +177,7 @@ def gen_and_replay(ctx, gencfg, num, stable, label, extra=()):
             ctx.violation("effect-not-once/" + phase, c, art)
         if stable and res["redirects"] > 0:
             ctx.violation("redirection-on-stable-cluster", "%d redirections although the layout never changed" % res["redirects"], art)
-        if not stable and not res["migratingAtEnd"] and res["redirectsAfter"] > 0:
+        if not stable and not pipelined and not res["migratingAtEnd"] and res["redirectsAfter"] > 0:
             ctx.violation("no-convergence/" + phase, "%d redirections in the last of up to 40 rounds after the layout settled" % res["redirectsAfter"], art)
         if not (res.get("bad") or res.get("copies") or res.get("execCounts")):
             ctx.cov["traces_validated_against_impl"] += 1
@@ -50,7 +185,9 @@ def gen_and_replay(ctx, gencfg, num, stable, label, extra=()):
         raise kit.Inconclusive("replay driver unhealthy: %d of %d" % (good, len(behs)))
     ctx.cov.setdefault("replay", {})[label] = {"behaviours": len(behs), "replayed": good,
                                                "commands": sum(r.get("cmds", 0) for r in results),
-                                               "redirections": sum(r.get("redirects", 0) for r in results)}
+                                               "redirections": sum(r.get("redirects", 0) for r in results),
+                                               "bursts": sum(r.get("bursts", 0) for r in results),
+                                               "bursts_redirected_to_fresh_node": sum(r.get("freshRedirects", 0) for r in results)}
     if results:
         ctx.sample({"behaviour": behs[0][:10], "result": {k: v for k, v in results[0].items() if k != "bad"}})
     return results
